@@ -14,3 +14,8 @@ claim("C07", "derived atomicity table + role-based release/acquire strength + ha
       "A static happens-before argument: (R1) every access to an _Atomic field is atomic in both builds, (R2) the atomics through which plain data changes owner are release/acquire or stronger, (R3) plain accesses to handed-off locations (ring bytes, atomic run-queue slots, receivep) lie on the correct side of those atomics on every path, (R4) each atomic.h fallback macro lowers to the C11 operation of its name, (R5) both builds perform the same atomic operations. Given R1-R3 every conflicting pair of plain accesses inside the library is ordered through one atomic object. This is the property's own content (happens-before from the memory-order argument of every atomic operation), decided for all executions at once rather than for explored ones.",
       "The ThreadSanitizer clause of the quantifier is a different technique and is not performed. Client code outside the analysed units (librfn/libopencm3, user payload writes between claim and send) is not covered. Trusted: clang 14 front end, ir2json, path enumerator.",
       "DESIGN.md section 2 C07")
+claim("C10", "sibling-agreement of initialisers (witness TU vs function, symbolic field maps) + cyclic-index entailment + expression-shape checks of addressing and its inverse (LLVM IR)",
+      "other",
+      "Decides for every geometry at once (symbolic basep, base_len, msg_len): the static initialiser and messageq_init assign every field the same expression with depth = floor(base_len/msg_len); send- and receive-side advances are the wrapped successor modulo queue_len; claim/receive address basep + index*msg_len without narrowing and send applies the exact inverse without narrowing; one 32-bit flag bit per slot with empty() testing the bit receive() tests; the library never dereferences the caller's message memory. Necessary conditions of C10.",
+      "Does NOT decide FIFO order over all sequential operation histories. Trusted: clang 14 front end, ir2json, path enumerator; queue_len in [1,255].",
+      "DESIGN.md section 2 C10")
